@@ -37,14 +37,19 @@ type Case struct {
 	SrcKind string         `json:"src"` // memory, oci, oci-ro, oci-tar, file
 	DstKind string         `json:"dst"` // memory, oci, file
 	Pre     []int          `json:"pre,omitempty"`
+	// SrcTagAnn: the source reference was tagged with a descriptor that carries
+	// annotations (as the descriptor PackManifest returns does)
+	SrcTagAnn bool `json:"srcTagAnn,omitempty"`
+	// Again (C01): after a successful Copy, copy once more under a second reference
+	Again bool `json:"again,omitempty"`
 	// PreTag: the destination reference already resolves to the root (which is then
 	// part of Pre), as after an earlier Copy of it
-	PreTag bool `json:"preTag,omitempty"`
-	Conc    int            `json:"conc"`
-	API     string         `json:"api"` // copygraph, copy, copy-blankdst, copy-maproot, extcopygraph, extcopy
-	MapTo   int            `json:"mapTo,omitempty"`
-	LatSeed int            `json:"latSeed,omitempty"`
-	Faults  []inst.Fault   `json:"faults,omitempty"`
+	PreTag  bool         `json:"preTag,omitempty"`
+	Conc    int          `json:"conc"`
+	API     string       `json:"api"` // copygraph, copy, copy-blankdst, copy-maproot, extcopygraph, extcopy
+	MapTo   int          `json:"mapTo,omitempty"`
+	LatSeed int          `json:"latSeed,omitempty"`
+	Faults  []inst.Fault `json:"faults,omitempty"`
 	// extended copy
 	Depth        int    `json:"depth,omitempty"`
 	FilterAT     string `json:"filterAT,omitempty"`
@@ -181,7 +186,15 @@ func Setup(c *Case) (*Env, *vt.Fail) {
 		}
 	}
 	root := d.Nodes[d.Nodes[c.Root].Canon]
-	if err := rawSrc.Tag(ctx, root.PushDesc(), SrcRef); err != nil {
+	srcTagDesc := root.PushDesc()
+	if c.SrcTagAnn {
+		ann := map[string]string{"verif.packed": "1"}
+		for k, v := range srcTagDesc.Annotations {
+			ann[k] = v
+		}
+		srcTagDesc.Annotations = ann
+	}
+	if err := rawSrc.Tag(ctx, srcTagDesc, SrcRef); err != nil {
 		e.Close()
 		return nil, vt.Failf("harness/src-tag", "%v", err)
 	}
